@@ -38,6 +38,9 @@ PROP_V = os.path.join(ROOT, "coq", "theories", "Properties", "C20.v")
 KNOWN_LEAK_IDS = {"(*nazalog.logger).Out": "C20-naza-log-lock-leak"}
 # race reports whose innermost lal frame (either side) is listed here are a known finding; any other report is a violation
 KNOWN_RACE_SITES = {}
+# artefacts of the soak harness, not of the server: cmd/lalrace runs several server lifetimes in ONE process, and every
+# NewLalServer re-initialises naza's global logger while goroutines of the previous lifetime may still log
+HARNESS_RACE_SITES = ("nazalog.(*logger).Init", "logic.LoadConfAndInitLog")
 
 
 def gen_cases(tier, rng):
@@ -563,6 +566,11 @@ def race_soak(ctx, cov, violation, notes):
     m = re.search(r"^lalrace: (.*)$", so, re.M)
     cov["race_soak"] = dict(seconds=round(time.time() - t0, 1), exit=rc, data_race_reports=len(reports), distinct=len(uniq),
                             scenario=(m.group(1) if m else so.strip()[-300:]))
+    ignored = [k for k in uniq if any(site in x for x in k for site in HARNESS_RACE_SITES)]
+    for k in ignored:
+        del uniq[k]
+    if ignored:
+        cov["race_soak"]["harness_artefacts_ignored"] = [" / ".join(k) for k in ignored]
     shown = 0
     for key, rep in uniq.items():
         fid = None
